@@ -48,7 +48,7 @@ def replay_part1(case):
 # ------------------------------------------------------------------ part 2
 
 def specs(tier):
-    out = [(0.0, 1.0), (1.0, 0.5), (2.5, 0.1)]
+    out = [(0.0, 1.0), (1.0, 0.5), (2.5, 0.1), (9.0, 0.5), (8.0, 1.0)]     # the last two cross a digit boundary (9.5 -> 10.0)
     if tier == "thorough":
         out += [(0.0, 0.1), (1.0, 1.0), (0.0, 0.25), (2.5, 0.5)]
     return out
@@ -71,7 +71,7 @@ def histories(tier):
 def make_factory(start, dt):
     def factory():
         import BPTK_Py
-        m = scen.base_model(start, float(Fraction(str(start)) + 6 * Fraction(str(dt))), dt, name="c19")
+        m = scen.base_model(start, float(Fraction(str(start)) + 8 * Fraction(str(dt))), dt, name="c19")
         b = BPTK_Py.bptk()
         b.register_scenario_manager({"sm": {"model": m}})
         b.register_scenarios(scenario_manager="sm", scenarios={"A": {}})
@@ -131,6 +131,7 @@ def run_case(spec, hist, compress, mode_whole, mode, env=None):
                 r = post("/%s/run-step" % inst)
             statuses.append(r.status_code)
         before_results = scen.loads(c.get("/%s/session-results" % inst).data)
+        before_flat = scen.loads(c.get("/%s/flat-session-results" % inst).data)
         before_state = copy.deepcopy(app._instance_manager._instances[inst]["instance"].session_state)
         if mode_whole:
             rs = c.get("/save-state")
@@ -142,9 +143,12 @@ def run_case(spec, hist, compress, mode_whole, mode, env=None):
             c2.post("/load-state")
         r_after = c2.get("/%s/session-results" % inst)          # lazy restore for the per-instance mode
         after_results = scen.loads(r_after.data) if r_after.status_code == 200 else {"_status": r_after.status_code}
+        r_flat = c2.get("/%s/flat-session-results" % inst)
+        after_flat = scen.loads(r_flat.data) if r_flat.status_code == 200 else {"_status": r_flat.status_code}
         im2 = app2._instance_manager
         after_state = copy.deepcopy(im2._instances[inst]["instance"].session_state) if inst in im2._instances else None
         return {"statuses": statuses, "before_results": before_results, "after_results": after_results,
+                "before_flat": before_flat, "after_flat": after_flat,
                 "before_state": before_state, "after_state": after_state}
     finally:
         shutil.rmtree(d, ignore_errors=True)
@@ -169,6 +173,14 @@ def compare(obs, pc, timeout_s, numeric=False):
     r = deep_equal(norm_inner(obs["before_results"]), norm_inner(obs["after_results"]), pc, timeout_s, numeric, "session-results")
     if r:
         return r
+    r = deep_equal(obs["before_flat"], obs["after_flat"], pc, timeout_s, numeric, "flat-session-results")     # lists: order matters
+    if r:
+        return r
+    # the restored logs must also list their steps in time order (everything that iterates them relies on it)
+    for lg in ("settings_log", "results_log"):
+        ks = [float(k) for k in a[lg].keys()]
+        if ks != sorted(ks):
+            return "%s: steps are stored in the order %s after the restore" % (lg, ks), None
     return None
 
 
@@ -268,7 +280,7 @@ def signature(spec, hist, compress, whole, what):
         return "%s:clock" % mode
     if "not restored" in what:
         return "%s:not-restored" % mode
-    for lg in ("settings_log", "results_log", "session-results"):
+    for lg in ("settings_log", "results_log", "session-results", "flat-session-results"):
         if what.startswith(lg):
             kind = "keys" if "keys" in what else "value"
             return "%s:%s:%s" % (mode, lg, kind)
